@@ -49,6 +49,7 @@ func devMain() {
 	replay := flag.Bool("replay", false, "replay first violation natively")
 	timeout := flag.Int("timeout", 10000, "solver timeout ms")
 	params := flag.String("params", "", "k=v,k=v harness parameters")
+	maxWall := flag.Int("maxwall", 120, "wall-clock budget in seconds per entry")
 	flag.Parse()
 	t0 := time.Now()
 	u := Unit{Pkg: *pkgPat, Harness: strings.Split(*harness, ",")}
@@ -72,7 +73,7 @@ func devMain() {
 			fmt.Println("no entry", en)
 			os.Exit(2)
 		}
-		res := runEntry(ld.prog, fn, runOpts{Workers: *workers, MaxPaths: *maxPaths, TimeoutMs: *timeout, Params: pm, SmtLog: *logf})
+		res := runEntry(ld.prog, fn, runOpts{Workers: *workers, MaxPaths: *maxPaths, TimeoutMs: *timeout, Params: pm, SmtLog: *logf, MaxWallS: *maxWall})
 		ex := res.ex
 		fmt.Printf("== %s: paths=%d cut=%d asserts=%d violations=%d unknown=%d boundhits=%d steps=%d queries=%d solver=%v wall=%v\n",
 			en, ex.Paths, ex.Cut, ex.Asserts, len(ex.Viol), ex.Unknown, ex.BoundHits, ex.Steps, res.queries, res.solverTime.Round(time.Millisecond), res.wall.Round(time.Millisecond))
